@@ -647,6 +647,20 @@ Proof.
   set (B := REG_UNKNOWN_BOUND) in *. set (A := REG_UNKNOWN_ALLOC) in *. lia.
 Qed.
 
+(* CONFIG_FINISHED -> supla_esp_set_channel_config(i), i < CHANNEL_MAX_COUNT: the per-position reads of
+   cfg.Time1/Time2/Time3/AdditionalTimeMargin/TiltControlType, MotorUpsideDown bit, channel_function_from_server and
+   channel_config_visualization_type stay inside their tables *)
+Theorem C03_config_finished_reads_in_bounds_thm : forall i, 0 <= i < CHANNEL_MAX ->
+  i < N_TIME1 /\ i < N_TIME2 /\ i < N_TIME3 /\ i < N_TIME_MARGIN /\ i < N_TILT_TYPE /\ i < MOTOR_UD_BITS /\
+  i < N_CHFUNC /\ i < N_VISTYPE /\ i < N_RUNTIMECFG.
+Proof.
+  intros i Hi.
+  assert (F : CHANNEL_MAX <= N_TIME1 /\ CHANNEL_MAX <= N_TIME2 /\ CHANNEL_MAX <= N_TIME3 /\ CHANNEL_MAX <= N_TIME_MARGIN /\
+              CHANNEL_MAX <= N_TILT_TYPE /\ CHANNEL_MAX <= MOTOR_UD_BITS /\ CHANNEL_MAX <= N_CHFUNC /\ CHANNEL_MAX <= N_VISTYPE /\
+              CHANNEL_MAX <= N_RUNTIMECFG) by (repeat split; vm_compute; discriminate).
+  destruct F as (?&?&?&?&?&?&?&?&?). repeat split; lia.
+Qed.
+
 (* ---- decidable form of wf_board (used for the examples and witnesses) ---- *)
 Definition relay_okb (r : relay) : bool := (0 <=? r_gpio r) && (r_gpio r <? GPIO_PINS - 1) && (0 <=? r_channel r) && (r_channel r <? 255).
 Definition input_okb (i : input) : bool := (0 <=? i_channel i) && (i_channel i <=? 255) && (0 <=? i_relay_gpio i) && (i_relay_gpio i <=? 255).
